@@ -278,15 +278,22 @@ class SymBytes:
             n -= 1
         return self._new(self.e[:n])
 
-    def startswith(self, p):
+    def startswith(self, p, start=None, end=None):
+        if isinstance(p, tuple):
+            from .core import sym_or
+            return sym_or(*[self.startswith(x, start, end) for x in p])
         pe = elements_of(p)
-        return SymBytes(self.e[:len(pe)]) == SymBytes(pe)
-
-    def endswith(self, p):
-        pe = elements_of(p)
-        if len(pe) > len(self.e):
+        sub = self[start:end] if (start is not None or end is not None) else self
+        if len(pe) > len(sub):
             return False
-        return SymBytes(self.e[len(self.e) - len(pe):]) == SymBytes(pe)
+        return SymBytes(sub.e[:len(pe)]) == SymBytes(pe)
+
+    def endswith(self, p, start=None, end=None):
+        pe = elements_of(p)
+        sub = self[start:end] if (start is not None or end is not None) else self
+        if len(pe) > len(sub):
+            return False
+        return SymBytes(sub.e[len(sub.e) - len(pe):]) == SymBytes(pe)
 
     def __repr__(self):
         if self.is_concrete():
